@@ -169,14 +169,19 @@ def _cfg_fallback_rule(ctx, q):
         return False, f"walk state {sorted(sl.names.values())}"
     init = u(sl.state["s0"])
     srcp = [a_.arg for a_ in cf.args.args][3] if len(cf.args.args) > 3 else "p"
-    if init not in (f"self.hugr[{srcp}.out_port().node].parent",):
+    # the state is the candidate container itself (starting at the source's parent), or the node below it (starting at the source)
+    if init == f"self.hugr[{srcp}.out_port().node].parent":
+        C = "s0"
+    elif init == f"{srcp}.out_port().node":
+        C = "self.hugr[s0].parent"
+    else:
         return False, f"the walk starts at {init}"
     cfg = "self.hugr[self.parent_node].parent"
     found = climb = refused_none = refused_root = False
     for it in sl.iters:
-        at_cfg = [k for t, k in it.tests if u(t) in (f"{cfg} == s0", f"s0 == {cfg}")] + [not k for t, k in it.tests if u(t) in (f"{cfg} != s0", f"s0 != {cfg}")]
-        is_none = [not k for t, k in it.tests if u(t) == "s0 is not None"] + [k for t, k in it.tests if u(t) == "s0 is None"]
-        at_root = [k for t, k in it.tests if u(t) in ("s0 == self.hugr.root", "self.hugr.root == s0")]
+        at_cfg = [k for t, k in it.tests if u(t) in (f"{cfg} == {C}", f"{C} == {cfg}")] + [not k for t, k in it.tests if u(t) in (f"{cfg} != {C}", f"{C} != {cfg}")]
+        is_none = [not k for t, k in it.tests if u(t) == f"{C} is not None"] + [k for t, k in it.tests if u(t) == f"{C} is None"]
+        at_root = [k for t, k in it.tests if u(t) in (f"{C} == self.hugr.root", f"self.hugr.root == {C}")]
         if it.kind == "return":
             # the walk ended: only at the CFG, and the link follows
             links = [e for e in getattr(it, "effects", [])]
